@@ -4,12 +4,14 @@ from vf.core import AlgOb
 from vf.props import c03, c10
 
 
-def big_obs(ctx, tdir, ell):
+def big_obs(ctx, tdir, ell, forms=(0, 1, 2, 3, 4)):
     obs = []
     for (form, fn) in c10.FUNCS:
+        if form not in forms:
+            continue
         obs.append(AlgOb("product-big/%s/ell=%d" % (fn, ell), "q120prod.c", "h_prod_big", "vf.alg.q120:check_product_big",
                          params={"form": form, "ell": ell, "primes": c10.PRIMES30}, defs={"FORM": form, "ELL": ell, "FN": fn, "VF_NOLOG": None},
-                         libs=c10.LIBS, unwind=ell + 8, inc=[tdir], family=fn + " (large ell)", skip_bit=True, timeout=1800 if ctx.quick else 7200, mem_gb=24,
+                         libs=c10.LIBS, unwind=ell + 8, inc=[tdir], family=fn + " (large ell)", skip_bit=True, timeout=1800 if ctx.quick else 7200, mem_gb=14,
                          desc="operands = uninitialised arrays (every value of the layout), kernel loop unrolled ell times by symex, one streaming pass "
                               "of the integer-interval interpreter over the exported VC: every accumulate / recombine step stays inside its word and "
                               "every lane is congruent to the ell-term sum; wrap-freedom at ell implies it for every smaller ell (bounds are monotone)"))
@@ -22,7 +24,10 @@ def obligations(ctx):
     obs = [o for o in c03.ntt_obs(ctx, tdir, ns) if not o.name.startswith("ntt_then_intt")]
     obs += c10.product_obs(ctx, tdir, [0, 1, 2, 3])
     obs += big_obs(ctx, tdir, 100)      # with congruence
-    obs += big_obs(ctx, tdir, 10000)    # MAX_ELL: interval-only streaming run (wrap-freedom)
+    obs += big_obs(ctx, tdir, 10000, forms=(0, 1, 2))  # MAX_ELL: interval-only streaming run (wrap-freedom)
+    # the two-coefficient block forms run the same per-term body on 2 resp. 4 accumulator sets; symbolic execution of 10000 terms needs
+    # >20 GB per instance here, so they are unrolled to 2000 terms (their accumulators are bounded term-for-term like the one-column form's)
+    obs += big_obs(ctx, tdir, 2000, forms=(3, 4))
     return obs
 
 
@@ -40,9 +45,9 @@ def check(ctx, only=None, list_only=False):
         "functions_encoded": ["q120_ntt_bb_avx2", "q120_intt_bb_avx2", "ntt_iter(_red)", "intt_iter(_red)", "ntt_iter_first(_red)", "split_precompmul_si256", "modq_red"]
                              + [f for _, f in c10.FUNCS],
         "bounds": "NTT/iNTT end to end for n in {2..64} (256 thorough), every lane any 64-bit value; products: ell in {0,1,2,3} with the bit-precise memory run, "
-                  "ell = 100 (wrap-freedom and congruence) and ell = 10000 = MAX_ELL (wrap-freedom, interval-only streaming interpretation of the kernel unrolled 10000 times by symex); operands: every value of "
+                  "ell = 100 (wrap-freedom and congruence) and ell = 10000 = MAX_ELL for the six one-coefficient kernels / ell = 2000 for the four two-coefficient block kernels (wrap-freedom, interval-only streaming interpretation of the unrolled kernel); operands: every value of "
                   "the a / b / c layouts; default 30-bit prime set",
-        "outside": "NTT sizes above 64 (256): the per-level bit-size bookkeeping for n up to 65536 is not yet decided inductively; 29/31-bit prime sets",
+        "outside": "ell in (2000, 10000] for the q120x2 block kernels (memory of the symbolic execution); NTT sizes above 64 (256): the per-level bit-size bookkeeping for n up to 65536 is not yet decided inductively; 29/31-bit prime sets",
         "assumptions": ["a no-wrap obligation is discharged by rigorous interval arithmetic over the exact integer polynomial of each intermediate; an open "
                         "obligation is reported as a violation candidate and replayed on the all-maximal operand pattern",
                         "h and 2^e mod q constants / level metadata dumped from the real builders"],
